@@ -290,7 +290,7 @@ impl Monitor for C12 {
         ]
     }
     fn rule(&self) -> String {
-        "case = one focused history (1..2 queues, 4..14 batch appends of 1..64 self-identifying records totalling 16 B .. 3 WAL files, plus frame-commensurate batches of 400..700 records of 169 bytes / 3..5 records of 32749 bytes (12+len divides the 32761-byte frame payload), interleaved truncations of the same queue and, one op in nine, delete_queue + create_queue of the same name so that later batches re-use positions of an earlier incarnation) under Always(Flush); crash leg: every file-system effect boundary and frame-relative byte cuts of every write; damage leg: every frame written by a batch x {payload bit, payload garbage, checksum, length byte, type byte}; evaluation = one recovery; oracle over batch boundaries known to the harness: each batch is recovered as nothing, everything, or a hole-free suffix ending at its last record whose missing head is at or below a truncate position issued on that queue; continuation leg: at a clean cut between two write() calls of a multi-write batch the recovered log receives a batch whose first two sizes are aimed at the bytes missing from the torn batch's straddling record, is restarted, and every batch is judged again; read-fault leg: up to 10 recoveries of the final image with one read failing once (EIO): if open returns a log anyway the same oracle applies; distinct_nontrivial = distinct (case, crash point or damaged frame+kind) inside or on a batch of >= 2 records".into()
+        "case = one focused history (1..2 queues, 4..14 batch appends of 1..64 self-identifying records totalling 16 B .. 3 WAL files, plus frame-commensurate batches of 400..700 records of 169 bytes / 3..5 records of 32749 bytes (12+len divides the 32761-byte frame payload), interleaved truncations of the same queue and, one op in nine, delete_queue + create_queue of the same name so that later batches re-use positions of an earlier incarnation) under Always(Flush); crash leg: every file-system effect boundary and frame-relative byte cuts of every write; damage leg: every frame written by a batch x {payload bit, payload garbage, checksum, length byte, type byte, whole frame zero-filled, empty-frame chain}; evaluation = one recovery; oracle over batch boundaries known to the harness: each batch is recovered as nothing, everything, or a hole-free suffix ending at its last record whose missing head is at or below a truncate position issued on that queue; continuation leg: at a clean cut between two write() calls of a multi-write batch the recovered log receives a batch whose first two sizes are aimed at the bytes missing from the torn batch's straddling record, is restarted, and every batch is judged again; read-fault leg: up to 10 recoveries of the final image with one read failing once (EIO): if open returns a log anyway the same oracle applies; distinct_nontrivial = distinct (case, crash point or damaged frame+kind) inside or on a batch of >= 2 records".into()
     }
     fn assumptions(&self) -> Vec<String> {
         vec!["records are >= 16 bytes and carry their (op, index, length) identity, so membership of a recovered record in a batch is unambiguous even where a re-created queue re-uses positions".into()]
@@ -498,9 +498,17 @@ impl Monitor for C12 {
             let fidx = fi as usize;
             fi += step;
             let orig = img.files[fname].clone();
-            for kind in 0..6 {
+            for kind in 0..7 {
                 let mut d = orig.clone();
                 let what = match kind {
+                    6 => {
+                        // the whole frame zero-filled, header included (for a Middle frame: its
+                        // whole block reads as never written)
+                        for b in d[f.off..f.off + HDR + f.len].iter_mut() {
+                            *b = 0;
+                        }
+                        "whole-frame-zeroed"
+                    }
                     5 => {
                         // the frame (and whatever follows it in its block) replaced by a gap-free
                         // chain of empty Middle frames: no checksum-verifying reader accepts them
